@@ -13,6 +13,18 @@ PURPOSES = (44, 49, 84)
 ADDR_KIND = {44: "p2pkh", 49: "p2sh_p2wpkh", 84: "p2wpkh"}
 
 
+def as_bv32(i):
+    """a child number given as a mathematical integer (already known to lie in [0, 2^32)) as a bit-vector
+    value: one int2bv conversion instead of a definitional byte decomposition inside every hash argument"""
+    from sx.values import SxInt
+    import z3
+    if isinstance(i, SxInt) and not i.is_bv:
+        lo = max(i.lo, 0) if i.lo is not None else 0
+        hi = min(i.hi, 2 ** 32 - 1) if i.hi is not None else 2 ** 32 - 1
+        return SxInt.bv(z3.ZeroExt(1, z3.Int2BV(i.e, 32)), lo, hi)
+    return i
+
+
 def ckd_uf(E, k, c, i):
     """reference child of scalar k / chain code c at index i -> (child scalar, child chain code)"""
     if not E.symbolic:
@@ -23,7 +35,7 @@ def ckd_uf(E, k, c, i):
     from sx import env, core
     import z3
     kb = ser(k, 32)
-    ib = ser(i, 4)
+    ib = ser(as_bv32(i), 4)
     ck = env.uf_hash("CKDK", 32, kb, c, ib)
     cc = env.uf_hash("CKDC", 32, kb, c, ib)
     kk = ifb(ck, "big")
@@ -38,7 +50,7 @@ def _prv_ckd(self, index):
     if isinstance(index, int) and not 0 <= index < 2 ** 32 or (not isinstance(index, int) and (bool(index < 0) or bool(index >= 2 ** 32))):
         raise OverflowError("int too big to convert")
     kb = self.key[1:] if len(self.key) == 33 else self.key
-    ib = ser(index, 4)
+    ib = ser(as_bv32(index), 4)
     ck = env.uf_hash("CKDK", 32, kb, self.chain_code, ib)
     cc = env.uf_hash("CKDC", 32, kb, self.chain_code, ib)
     core.CTX.add(z3.ULT(ck.bv(), z3.BitVecVal(N, 256)), ck.bv() != 0)
@@ -60,7 +72,7 @@ def _pub_ckd(self, index):
         from sx.core import Unsupported
         raise Unsupported("public ckd summary on SEC bytes of unknown origin")
     kb = ser(d, 32)
-    ib = ser(index, 4)
+    ib = ser(as_bv32(index), 4)
     ck = env.uf_hash("CKDK", 32, kb, self.chain_code, ib)
     cc = env.uf_hash("CKDC", 32, kb, self.chain_code, ib)
     core.CTX.add(z3.ULT(ck.bv(), z3.BitVecVal(N, 256)), ck.bv() != 0)
